@@ -88,11 +88,26 @@ CHECKS = [
                 "(probed natively by the bounded C08.workbook_readback job, never counted as proved); Categories.levels yields "
                 "offsets 0 <= off < leaf_count (C07 contract); category depth <= 26. Known finding F14 (date1904 charts).",
     },
+    {
+        "property_id": "C18",
+        "technique": "contract-based deductive verification (pyvc over the real CT_CoreProperties helpers; abstract datetimes; z3)",
+        "category": "proof",
+        "text": "The 11 string accessors (set: stored verbatim iff length <= 255, ValueError and no change otherwise; read: '' when "
+                "absent/empty), revision (positive ints and bools stored and read back, others ValueError, reading of absent/empty/"
+                "non-numeric/negative text gives 0), the three date properties (write/read lemma through strftime, the [:19] slice, "
+                "the template loop and strptime; xsi:type on created/modified; non-datetimes rejected) and the W3CDTF offset "
+                "arithmetic (local time minus signed offset) are obligations over all lengths / integers / instants, discharged "
+                "from the real sources.",
+        "note": "Assumed (probed natively by C18.native_roundtrip, never counted as proved): strftime field widths (glibc %Y unpadded), "
+                "strptime needs a full match and inverts strftime, %04d renders 4 digits up to 9999, timedelta arithmetic, the offset "
+                "regex. cp:coreProperties is abstracted to one optional child per property. XSD validity of core.xml and the "
+                "save/re-open leg are bounded only. F9 and F26 repaired by fix: commits.",
+    },
 ]
 
 _PENDING = "check not built yet in this session (planned, see DESIGN.md section 5)"
 NOT_APPLICABLE = [
     {"property_id": p, "reason": _PENDING}
     for p in ["C01", "C02", "C03", "C04", "C05", "C07", "C09", "C12", "C13", "C14", "C15", "C16",
-              "C18", "C19"]
+              "C19"]
 ]
